@@ -85,6 +85,11 @@ class RouchonSODE(SIntegrator):
         """
         self.t = t
         self.state = state0
+        if getattr(generator, "is_measurement", False):
+            raise NotImplementedError(
+                f"{type(self).__name__} does not support running"
+                " the evolution from measurements."
+            )
         if isinstance(generator, Wiener):
             self.wiener = generator
         else:
